@@ -193,7 +193,8 @@ Definition outer_step (im : bool) (m : amap) (p : string * node) : res amap :=
   | Grp ch2 =>
       if im
       then bind (inner_info (fst p) ch2 im)
-                (fun m2 => ROk (fold_right (fun q acc => amap_set acc (fst q) (snd q)) m m2))
+                (fun m2 => ROk (fold_right (fun q acc => amap_set acc (fst q) (snd q)) m
+                                  (filter (fun q => negb (String.eqb (fst q) "anisotropy")) m2)))
       else RErr ReaderExc
   | n => if String.eqb (fst p) "nbAnisotropy"
          then bind (first_int n) (fun v => ROk (amap_set m "anisotropy" v))
@@ -267,7 +268,8 @@ Proof.
   destruct (Hwf c2 eq_refl) as (Hnd2 & Hne2 & Hk1 & Hk2).
   apply bind_ok in Hs. destruct Hs as (m2 & Hin & Hs). inversion Hs; subst m'. clear Hs.
   destruct (inner_shape _ _ _ Hin Hnd2 Hne2) as (d & v & -> & Hv & ->).
-  cbn [fold_right fst snd]. unfold amap_set.
+  cbn [filter fst snd]. rewrite (proj2 (String.eqb_neq k "anisotropy") Hk2).
+  cbn [negb filter fst String.eqb Ascii.eqb Bool.eqb]. cbn [fold_right fst snd]. unfold amap_set.
   assert (Hfresh : forall n', ~ In (k, n') pre).
   { intros n' Hn'. rewrite map_app in Hnd. cbn in Hnd. apply NoDup_remove_2 in Hnd.
     apply Hnd. rewrite app_nil_r. change k with (fst (k, n')). apply in_map, Hn'. }
@@ -276,15 +278,16 @@ Proof.
     + apply String.eqb_eq in E. subst r. rewrite amap_get_cons_eq in Hg. inversion Hg; subst.
       exists d. split; [apply in_or_app; right; left; reflexivity | exact Hv].
     + apply String.eqb_neq in E. rewrite amap_get_cons_ne in Hg by exact E.
-      rewrite amap_get_cons_ne in Hg by exact Hr.
       destruct (I1 r v' Hr Hg) as (d' & Hd' & Hv'). exists d'. split; [apply in_or_app; left|]; auto.
   - intros r d' Hr Hin'. apply in_app_or in Hin'. destruct Hin' as [Hin'|[Hin'|[]]].
     + destruct (I2 r d' Hr Hin') as (v' & Hv' & Hg). exists v'. split; [exact Hv'|].
       assert (r <> k) by (intros ->; eapply Hfresh, Hin').
-      rewrite amap_get_cons_ne by assumption. rewrite amap_get_cons_ne by exact Hr. exact Hg.
+      rewrite amap_get_cons_ne by assumption. exact Hg.
     + inversion Hin'; subst. exists v. split; [exact Hv | apply amap_get_cons_eq].
-  - exists 1%nat. split; [|left; reflexivity].
-    rewrite amap_get_cons_ne by (intros E; apply Hk2; symmetry; exact E). apply amap_get_cons_eq.
+  - destruct I3 as (a & Ha & Halt). exists a. split.
+    + rewrite amap_get_cons_ne by (intros E; apply Hk2; symmetry; exact E). exact Ha.
+    + destruct Halt as [->|(d' & Hd' & Hng & Hv')]; [left; reflexivity|].
+      right. exists d'. split; [apply in_or_app; left; exact Hd' | auto].
   - intros k' n' Hin'. apply in_app_or in Hin'. destruct Hin' as [Hin'|[Hin'|[]]].
     + apply (I4 k' n' Hin').
     + inversion Hin'; subst. left. eauto.
